@@ -193,7 +193,11 @@ def _filter_identifiers(filter_args):
     for arg, code in zip(filter_args.args, filter_args.codeargs):
         if arg in filters.DEFAULT_ESCAPES or arg.startswith("decode."):
             continue
-        res.update(code.undeclared_identifiers)
+        # names the entry binds itself (comprehension variables) are not
+        # read from outside
+        res.update(
+            code.undeclared_identifiers.difference(code.declared_identifiers)
+        )
     return res
 
 
@@ -364,12 +368,12 @@ class Tag(Node, metaclass=_TagMeta):
                         code = ast.PythonCode(
                             m.group(1).rstrip(), **self.exception_kwargs
                         )
-                        # we aren't discarding "declared_identifiers" here,
-                        # which we do so that list comprehension-declared
-                        # variables aren't counted.   As yet can't find a
-                        # condition that requires it here.
+                        # names the expression binds itself (comprehension
+                        # variables) are not read from outside
                         undeclared_identifiers = undeclared_identifiers.union(
-                            code.undeclared_identifiers
+                            code.undeclared_identifiers.difference(
+                                code.declared_identifiers
+                            )
                         )
                         expr.append("(%s)" % m.group(1))
                     elif x:
